@@ -41,6 +41,7 @@ type ExecCtx struct {
 	curPos   token.Pos
 	loopBinds []map[string]Val
 	inlinedFunc bool // body of a named function inlined at a call site
+	factDepth int
 }
 
 var NilTerm = &Term{Op: "sym", Name: "$untyped_nil", Sort: "Nil"}
@@ -341,10 +342,34 @@ func (c *ExecCtx) typeFacts(st *State, t *Term, ty types.Type) {
 	if t.Sort == SStr {
 		st.assumeT(Ge(c.strLen(t), IntLit(0)))
 	}
+	// struct values: facts of their slice / string / unsigned fields
+	if _, stt := structOf(ty); stt != nil && c.u.eng.tm.isTransparentStruct(ty) {
+		for i := 0; i < stt.NumFields(); i++ {
+			ft := stt.Field(i).Type()
+			switch unalias(ft).Underlying().(type) {
+			case *types.Struct:
+				if c.u.eng.tm.isTransparentStruct(ft) && c.factDepth < 3 {
+					c.factDepth++
+					c.typeFacts(st, c.u.eng.tm.FieldGet(t, ty, i), ft)
+					c.factDepth--
+				}
+			case *types.Slice:
+				f := c.u.eng.tm.FieldGet(t, ty, i)
+				st.assumeT(And(Ge(slLen(f), IntLit(0)), Le(slLen(f), slCap(f)), Imp(slNil(f), Eq(slLen(f), IntLit(0)))))
+			case *types.Basic:
+				if isUnsigned(ft) {
+					st.assumeT(Ge(c.u.eng.tm.FieldGet(t, ty, i), IntLit(0)))
+				}
+			}
+		}
+	}
 }
 
 func (c *ExecCtx) strLen(s *Term) *Term {
-	c.u.eng.d.Fun("slen", []string{SStr}, SInt)
+	d := c.u.eng.d
+	d.Fun("slen", []string{SStr}, SInt)
+	x := Sym("x!l", SStr)
+	d.AddAxiom("slen_nonneg", Forall([]*Term{x}, Ge(App("slen", SInt, x), IntLit(0)), []*Term{App("slen", SInt, x)}))
 	return App("slen", SInt, s)
 }
 
